@@ -29,9 +29,12 @@ def demo_file(prop, k):
     return fs[0] if fs else None
 
 
-def confirm(prop, k, crate):
+def confirm(prop, k, crate, rustflags=None, demo_dir=None):
     wt = "/tmp/wt-%s" % prop
     env = {"CARGO_TARGET_DIR": wt + "/target", "CARGO_NET_OFFLINE": "true"}
+    denv = dict(env)
+    if rustflags:
+        denv["RUSTFLAGS"] = rustflags
     diff = "/tmp/seed-%s/mut%s.diff" % (prop, k)
     demo = demo_file(prop, k)
     res = {}
@@ -44,7 +47,17 @@ def confirm(prop, k, crate):
     failed = sum(int(m) for m in re.findall(r"(\d+) failed", out))
     res["suite_with_change"] = {"passed": passed, "failed": failed, "compiles": "error" not in out}
     dest = None
-    if demo:
+    if demo_dir:
+        # a standalone demo crate (path dependencies into the worktree)
+        cmd = "cargo test --offline 2>&1 | tail -15"
+        rc1, out1 = sh(cmd, cwd=demo_dir, env=denv)
+        res["demo_with_change"] = "FAILS" if ("FAILED" in out1 or "panicked" in out1) else "passes"
+        res["demo_with_change_tail"] = out1[-400:]
+        sh("git checkout -- .", cwd=wt)
+        rc2, out2 = sh(cmd, cwd=demo_dir, env=denv)
+        res["demo_without_change"] = "passes" if "test result: ok" in out2 and "FAILED" not in out2 else "FAILS"
+        res["demo_without_change_tail"] = out2[-300:]
+    elif demo:
         dest = os.path.join(wt, crate, "tests", os.path.basename(demo))
         os.makedirs(os.path.dirname(dest), exist_ok=True)
         shutil.copy(demo, dest)
@@ -53,11 +66,11 @@ def confirm(prop, k, crate):
         if crate == ".":
             pkg = "passage"
         cmd = "cargo test -p %s --offline --test %s 2>&1 | tail -15" % (pkg, name)
-        rc1, out1 = sh(cmd, cwd=wt, env=env)
+        rc1, out1 = sh(cmd, cwd=wt, env=denv)
         res["demo_with_change"] = "FAILS" if ("FAILED" in out1 or "failed" in out1 or "panicked" in out1) and "test result: ok" not in out1.split("\n")[-3:] else "passes"
         res["demo_with_change_tail"] = out1[-400:]
         sh("git checkout -- .", cwd=wt)
-        rc2, out2 = sh(cmd, cwd=wt, env=env)
+        rc2, out2 = sh(cmd, cwd=wt, env=denv)
         res["demo_without_change"] = "passes" if "test result: ok" in out2 and "FAILED" not in out2 else "FAILS"
         res["demo_without_change_tail"] = out2[-300:]
         os.remove(dest)
@@ -107,7 +120,9 @@ if __name__ == "__main__":
     a = sys.argv[1:]
     if a[0] == "confirm":
         crate = a[a.index("--crate") + 1] if "--crate" in a else "passage-protocol"
-        print(json.dumps(confirm(a[1], a[2], crate), indent=1))
+        rf = a[a.index("--rustflags") + 1] if "--rustflags" in a else None
+        dd = a[a.index("--demo-dir") + 1] if "--demo-dir" in a else None
+        print(json.dumps(confirm(a[1], a[2], crate, rf, dd), indent=1))
     elif a[0] == "eval":
         tier = a[a.index("--tier") + 1] if "--tier" in a else "quick"
         checks = a[a.index("--checks") + 1].split(",") if "--checks" in a else [a[1]]
